@@ -8,7 +8,9 @@
    (duke/src/class_reader.rs read_code first pass, tableswitch count, StackMapTable offsets;
    class_reader/labels.rs get_or_create_range and the label counter; class_reader/pool.rs
    bootstrap-argument nesting and budget; read_element_value* nesting; duke/src/lib.rs
-   read_u8_vec; quill/src/enigma_file.rs CLASS nesting; quill/src/lines.rs `&line[idents..]`).
+   read_u8_vec; quill/src/enigma_file.rs CLASS nesting; quill/src/lines.rs `&line[idents..]`;
+   class_reader/pool.rs the per-instruction budget of expanded bootstrap arguments;
+   tree/descriptor.rs get_arguments_size (the writer's u8 count operand); tiny_v2.rs unescape).
    The [*_unrepaired] variants restate the code before the fixes; Theory.v shows that they do
    reach [Panic] on the witnesses found by the harness.  Definitions only. *)
 From FB Require Export Base.Str.
@@ -392,4 +394,146 @@ Definition desc_out (kind : N) (s : str) : out unit :=
   | 0 => match parse_field s with Ok _ => Done tt | Err => Fail end
   | 1 => match parse_method s with Ok _ => Done tt | Err => Fail end
   | _ => match parse_return s with Ok _ => Done tt | Err => Fail end
+  end.
+
+(* ------------------------------------------------------------------------------------------ *)
+(* One instruction: ALL top-level bootstrap arguments share one budget (pool.rs as_invoke_dynamic:
+   `let budget = &Cell::new(MAX_BOOTSTRAP_ARGUMENTS_EXPANDED)` BEFORE the loop over the arguments;
+   get_loadable for ldc: one budget for the constant).                                          *)
+Fixpoint resolve_all (fuel : nat) (limit : option N) (pool : list pentry) (bsms : list (list N)) (args : list N) (nesting bud : N) : out N :=
+  match args with
+  | [] => Done bud
+  | a :: rest => let! bud' := resolve fuel limit pool bsms a nesting bud in resolve_all fuel limit pool bsms rest nesting bud'
+  end.
+
+(* instrumented: number of get_loadable_nested calls made, and the result *)
+Fixpoint resolve_w (fuel : nat) (limit : option N) (pool : list pentry) (bsms : list (list N)) (idx nesting budget : N) : N * out N :=
+  match fuel with
+  | O => (0, Panic)
+  | S f =>
+      if (0 <? nesting) && (budget =? 0) then (1, Fail) else
+      let budget1 := if 0 <? nesting then budget - 1 else budget in
+      match nth_N pool idx with
+      | None => (1, Fail)
+      | Some PLeaf => (1, Done budget1)
+      | Some POther => (1, Fail)
+      | Some (PDyn b) =>
+          if (match limit with Some m => m <? nesting | None => false end) then (1, Fail) else
+          match nth_N bsms b with
+          | None => (1, Fail)
+          | Some args =>
+              let wr := (fix go (args : list N) (bud : N) : N * out N :=
+                 match args with
+                 | [] => (0, Done bud)
+                 | a :: rest =>
+                     match resolve_w f limit pool bsms a (nesting + 1) bud with
+                     | (w1, Done bud') => let wr := go rest bud' in (w1 + fst wr, snd wr)
+                     | (w1, r) => (w1, r)
+                     end
+                 end) args budget1 in
+              (1 + fst wr, snd wr)
+          end
+      end
+  end.
+Fixpoint resolve_all_w (fuel : nat) (limit : option N) (pool : list pentry) (bsms : list (list N)) (args : list N) (nesting bud : N) : N * out N :=
+  match args with
+  | [] => (0, Done bud)
+  | a :: rest =>
+      match resolve_w fuel limit pool bsms a nesting bud with
+      | (w1, Done bud') => let wr := resolve_all_w fuel limit pool bsms rest nesting bud' in (w1 + fst wr, snd wr)
+      | (w1, r) => (w1, r)
+      end
+  end.
+
+Definition indy_instruction (pool : list pentry) (bsms : list (list N)) (args : list N) : out N :=
+  resolve_all resolve_fuel (Some max_nesting) pool bsms args 1 max_expanded.
+Definition ldc_instruction (pool : list pentry) (bsms : list (list N)) (idx : N) : out N :=
+  resolve resolve_fuel (Some max_nesting) pool bsms idx 0 max_expanded.
+Definition indy_instruction_w pool bsms args := resolve_all_w resolve_fuel (Some max_nesting) pool bsms args 1 max_expanded.
+Definition ldc_instruction_w pool bsms idx := resolve_w resolve_fuel (Some max_nesting) pool bsms idx 0 max_expanded.
+
+
+(* the defect that a budget created INSIDE the loop would be: every top-level argument gets a fresh budget *)
+Fixpoint indy_per_argument_w (pool : list pentry) (bsms : list (list N)) (args : list N) : N * out N :=
+  match args with
+  | [] => (0, Done max_expanded)
+  | a :: rest =>
+      match resolve_w resolve_fuel (Some max_nesting) pool bsms a 1 max_expanded with
+      | (w1, Done _) => let wr := indy_per_argument_w pool bsms rest in (w1 + fst wr, snd wr)
+      | (w1, r) => (w1, r)
+      end
+  end.
+(* the shared DAG of the harness: constant i lists constant i+1 twice, the last one has no arguments *)
+Definition dag_graph (depth : nat) : list (list N) :=
+  map (fun i => if (S i <? depth)%nat then [N.of_nat (S i); N.of_nat (S i)] else []) (seq 0 depth).
+
+(* correspondence form: graph as for [boot]; [indy] = the roots are the arguments of the
+   invokedynamic's bootstrap method, otherwise the single root is loaded by ldc *)
+Definition boot_roots (g : list (list N)) (roots : list N) (indy : bool) : out N :=
+  if indy then indy_instruction (boot_pool g) g roots
+  else match roots with [x] => ldc_instruction (boot_pool g) g x | _ => Fail end.
+
+(* ------------------------------------------------------------------------------------------ *)
+(* MethodDescriptorSlice::get_arguments_size (duke/src/tree/descriptor.rs): the `count` operand
+   of invokeinterface that the class WRITER recomputes from the descriptor, an u8.
+   [checked] = after the fix (checked_add, an error); before: `size += k` on an u8.            *)
+Definition u8_max : N := 255.
+Definition u8_bump (checked : bool) (size k : N) : out N :=
+  if size + k <=? u8_max then Done (size + k) else if checked then Fail else Panic.
+
+(* `while chars.next_if_eq(&'[').is_some() {}` *)
+Fixpoint skip_brackets (s : str) : str :=
+  match s with c :: r => if c =? 91 then skip_brackets r else s | [] => [] end.
+(* after an `L`: read chars up to and including `;`; None = abrupt ending *)
+Fixpoint skip_to_semi (s : str) : option str :=
+  match s with [] => None | c :: r => if c =? 59 then Some r else skip_to_semi r end.
+
+Fixpoint args_loop (checked : bool) (fuel : nat) (s : str) (size : N) : out N :=
+  match fuel with
+  | O => Panic
+  | S f =>
+      match s with
+      | [] => Fail                                   (* chars.next() is None: abrupt ending *)
+      | c :: r =>
+          if c =? 41 then Done size                   (* ')' *)
+          else if (c =? 68) || (c =? 74) then         (* 'D' | 'J' *)
+            let! size' := u8_bump checked size 2 in args_loop checked f r size'
+          else
+            match skip_brackets s with
+            | [] => Fail
+            | ch :: r1 =>
+                if ch =? 76 then                      (* 'L' … ';' *)
+                  match skip_to_semi r1 with
+                  | None => Fail
+                  | Some r2 => let! size' := u8_bump checked size 1 in args_loop checked f r2 size'
+                  end
+                else let! size' := u8_bump checked size 1 in args_loop checked f r1 size'
+            end
+      end
+  end.
+Definition arguments_size_with (checked : bool) (s : str) : out N :=
+  match s with
+  | c :: r => if c =? 40 then args_loop checked (S (length r)) r 1 else Fail
+  | [] => Fail
+  end.
+Definition arguments_size : str -> out N := arguments_size_with true.
+Definition arguments_size_unrepaired : str -> out N := arguments_size_with false.
+
+
+(* ------------------------------------------------------------------------------------------ *)
+(* tiny_v2::unescape on code points (`s.chars()`; table ESCAPES = (\\,\\) (LF,n) (CR,r) (TAB,t)):
+   a backslash followed by an escape letter is replaced, every other char is kept — also a
+   backslash that starts no escape.  No byte index is computed anywhere.                        *)
+Definition unesc_letter (e : N) : option N :=
+  if e =? 92 then Some 92 else if e =? 110 then Some 10 else if e =? 114 then Some 13 else if e =? 116 then Some 9 else None.
+Fixpoint unescape_cp (s : list N) : list N :=
+  match s with
+  | [] => []
+  | c :: r =>
+      if c =? 92 then
+        match r with
+        | e :: r' => match unesc_letter e with Some x => x :: unescape_cp r' | None => c :: unescape_cp r end
+        | [] => [c]
+        end
+      else c :: unescape_cp r
   end.
